@@ -143,6 +143,15 @@ CHECKS = {
             "no seal => NO_SEAL. All single-site tampers of each sampled document are enumerated; documents are sampled.",
             "tampers touching only comments, the separator or the grammar sentinel are not generated (not in the property's list)",
             "DESIGN.md §3 C15"),
+    "C18": ("exploration",
+            "frame model over generated change requests (sequences of <=3), line-level frame check, exhaustive Absent/empty-value placement",
+            "Generated documents x sequences of change requests (DELETE / null / values of every kind / objects; KEY, META.X, META{...}, "
+            "mutations) through octave_write and CLI write --changes: the file must hold exactly the content of the model with the "
+            "named operations applied (structure, typed values, comments), and all lines outside the named keys' spans must be "
+            "unchanged; exhaustive small part: Absent at 7 positions x 4 neighbour shapes is never written, and the four empty "
+            "values stay distinct in all 24 orders.",
+            "requests address top-level assignments, META fields and fresh keys; deleted nodes carry no comments; documents have no empty containers",
+            "DESIGN.md §3 C18"),
 }
 
 NOT_YET = {
